@@ -552,3 +552,98 @@ Proof.
   - right. split; [reflexivity | apply reject_sound; exact E].
   - exfalso. exact (check_terminates g root E).
 Qed.
+
+(* ------------------------------------------------------------------ *)
+(* 7. fix 9a9fdc3: every named type expanded as a root of its own       *)
+(* ------------------------------------------------------------------ *)
+
+Lemma lookup_in_names : forall g n body, lookup g n = Some body -> In n (map fst g).
+Proof.
+  induction g as [|[m t] r IH]; intros n body H; cbn [lookup] in H; [discriminate H|].
+  cbn [map fst]. destruct (Nat.eqb m n) eqn:E.
+  - left. apply Nat.eqb_eq. exact E.
+  - right. exact (IH n body H).
+Qed.
+
+(* a type expanded with its own name on the path: rejected only if its body has no finite inhabitant *)
+Lemma reject_own_root : forall f g n body,
+  lookup g n = Some body -> check f g [n] body = Some false -> ~ Inhabited g body.
+Proof.
+  intros f g n body Hl H Hinh.
+  apply Inhabited_InhN in Hinh. destruct Hinh as [k Hk].
+  assert (Hno : forall j, ~ InhN g j body).
+  { intros j. induction j as [j IHj] using lt_wf_ind.
+    apply (reject_gen f g [n] body j H).
+    intros v [E|[]]. subst v. exists body. split; [exact Hl|].
+    intros i Hi. exact (IHj i Hi). }
+  exact (Hno k Hk).
+Qed.
+
+Lemma check_names_true : forall g ns, check_names g ns = Some true ->
+  forall n body, In n ns -> lookup g n = Some body -> Inhabited g body.
+Proof.
+  intros g ns. induction ns as [|m r IH]; intros H n body Hin Hl; [destruct Hin|].
+  cbn [check_names] in H. destruct Hin as [E|Hin].
+  - subst m. rewrite Hl in H.
+    destruct (check (fuel_for g body) g [n] body) as [[|]|] eqn:Ec; try discriminate H.
+    exact (accept_gen _ g [n] body Ec).
+  - destruct (lookup g m) as [bm|] eqn:Em.
+    + destruct (check (fuel_for g bm) g [m] bm) as [[|]|] eqn:Ec; try discriminate H.
+      exact (IH H n body Hin Hl).
+    + exact (IH H n body Hin Hl).
+Qed.
+
+Lemma check_names_false : forall g ns, check_names g ns = Some false ->
+  exists n body, In n ns /\ lookup g n = Some body /\ ~ Inhabited g body.
+Proof.
+  intros g ns. induction ns as [|m r IH]; intros H; cbn [check_names] in H; [discriminate H|].
+  destruct (lookup g m) as [bm|] eqn:Em.
+  - destruct (check (fuel_for g bm) g [m] bm) as [[|]|] eqn:Ec.
+    + destruct (IH H) as [n [body [Hin [Hl Hno]]]]. exists n, body. split; [right; exact Hin|split; assumption].
+    + exists m, bm. split; [left; reflexivity|split; [exact Em|]].
+      exact (reject_own_root _ g m bm Em Ec).
+    + discriminate H.
+  - destruct (IH H) as [n [body [Hin [Hl Hno]]]]. exists n, body. split; [right; exact Hin|split; assumption].
+Qed.
+
+Lemma check_names_terminates : forall g ns, check_names g ns <> None.
+Proof.
+  intros g ns. induction ns as [|m r IH]; cbn [check_names]; [discriminate|].
+  destruct (lookup g m) as [bm|] eqn:Em; [|exact IH].
+  destruct (check (fuel_for g bm) g [m] bm) as [[|]|] eqn:Ec; [exact IH|discriminate|].
+  exfalso. revert Ec. apply terminates_gen. unfold fuel_for.
+  pose proof (unvisited_cons_le g m []) as Hle. rewrite unvisited_nil in Hle.
+  assert (Hm : unvisited g [m] * S (env_size g) <= length g * S (env_size g)) by (apply Nat.mul_le_mono_r; exact Hle).
+  rewrite Nat.mul_succ_l. lia.
+Qed.
+
+(* the whole check of the repaired CheckRecursion: accepted exactly when the root and every defined type
+   have a finite inhabitant *)
+Theorem check_all_iff_inhabited : forall g root b,
+  check_all g root = Some b ->
+  (b = true <-> (Inhabited g root /\ forall n body, lookup g n = Some body -> Inhabited g body)).
+Proof.
+  intros g root b H. unfold check_all in H.
+  destruct (check_recursion g root) as [[|]|] eqn:Er.
+  - pose proof (accept_sound g root Er) as Hroot. split.
+    + intros Hb. subst b. split; [exact Hroot|].
+      intros n body Hl. exact (check_names_true g _ H n body (lookup_in_names g n body Hl) Hl).
+    + intros [_ Hall]. destruct b; [reflexivity|]. exfalso.
+      destruct (check_names_false g _ H) as [n [body [_ [Hl Hno]]]]. exact (Hno (Hall n body Hl)).
+  - inversion H; subst b. split; [discriminate|].
+    intros [Hroot _]. exfalso. exact (reject_sound g root Er Hroot).
+  - discriminate H.
+Qed.
+
+Theorem check_all_terminates : forall g root, check_all g root <> None.
+Proof.
+  intros g root. unfold check_all.
+  destruct (check_recursion g root) as [[|]|] eqn:Er; [apply check_names_terminates|discriminate|].
+  exfalso. exact (check_terminates g root Er).
+Qed.
+
+(* the root walk alone (the checker before the fix) misses a required loop the root does not require *)
+Example root_walk_misses_unreferenced_loop :
+  check_recursion [(0, TObj [(true, TRef [1])]); (1, TObj [(false, TRef [1])])] (TRef [0]) = Some true /\
+  check_all [(0, TObj [(true, TRef [1])]); (1, TObj [(false, TRef [1])])] (TRef [0]) = Some false.
+Proof. vm_compute. split; reflexivity. Qed.
